@@ -369,6 +369,11 @@ impl Stats {
     }
     pub fn merge(&mut self, o: Stats) {
         for (k, v) in o.counters {
+            if k == "slowest_scenario_ms" {
+                let e = self.counters.entry(k).or_insert(0);
+                *e = (*e).max(v);
+                continue;
+            }
             *self.counters.entry(k).or_insert(0) += v;
         }
         for (k, v) in o.distinct {
